@@ -111,6 +111,13 @@ theorem shot_gaussian_nonneg_in_regime (lamMax : K) (sqrt : K → K) (trunc : K 
 example : shotGaussian (K := ℚ) 100 (fun y => y) (fun _ => 0) (fun _ _ => 0) 0 2 (fun i => if i = 0 then 4 else -1) = none := by
   decide +kernel
 
+/-- **tie to the source line** (regenerated from `read_noise`: `Gen.readNoiseFrame` = `img + rng.normal(loc=0.0, scale=electrons,
+size=img.shape)` with the draw written `loc + scale·z`): the model read noise is that expression at every pixel — a changed `loc`,
+`scale` or sign of the sum breaks this proof -/
+theorem read_noise_follows_source (lit : Nat → Bool → Nat → K) (z : Int → Nat → K) (e : K) (seed : Int) (img : Nat → K) (i : Nat) :
+    readNoise z e seed img i = Gen.readNoiseFrame lit (img i) (z seed i) e := by
+  simp [readNoise, Gen.readNoiseFrame]
+
 /-- read noise is additive and independent of the signal; with zero read noise the frame is returned unchanged -/
 theorem read_noise_additive (z : Int → Nat → K) (e : K) (seed : Int) (img : Nat → K) (i : Nat) :
     readNoise z e seed img i - img i = e * z seed i ∧ readNoise z 0 seed img i = img i := by
